@@ -1,15 +1,26 @@
 import Octo.Proofs.SsChunk
 import Octo.Proofs.SsStream
 import Octo.Proofs.Toy
+import Octo.Proofs.Slices
+import Octo.Proofs.ToyStrong
 /-!
 # C05 — tampered or reflected ciphertext is never delivered as plaintext
 
 Symbolic statement.  `NoForgery` is the cryptographic assumption (integrity of ciphertexts,
-idealised to exactness), stated as a *hypothesis about the key and the honest sender's output*:
-under the session key and the i-th nonce only the block the honest sender sealed with that nonce
-opens.  What is **proved** is what the codec is responsible for: the counter advances once per
-block, a length is never used before it has been authenticated, and nothing is released after the
-first block that fails to open — for *every* attacker-chosen byte stream, in every segmentation.
+idealised to exactness), stated as a *hypothesis about the key, the honest sender's output and the
+received bytes*: no contiguous block of the received byte string `s` opens under the session key and
+the i-th nonce unless it is the block the honest sender sealed with that nonce ("the received bytes
+contain no forgery").  What is **proved** is what the codec is responsible for: the counter advances
+once per block, a length is never used before it has been authenticated, and nothing is released
+after the first block that fails to open — for *every* such byte stream, in every segmentation.
+
+The hypothesis is relative to `s` on purpose.  The form "for **all** `x`, if `x` opens under nonce i
+then `x` is the honest block i" is unsatisfiable for a lawful cipher (`noForgery_global_inconsistent`
+below: `sealB` is a function, so the seal of any *other* plaintext under the same key and nonce
+exists and opens); a theorem assuming it would be vacuous.  Relative to the received bytes the
+hypothesis says what integrity of ciphertexts means operationally — the attacker, who does not know
+the key, did not put such a block on the wire — it is decidable for concrete data
+(`noForgeryCheck`), and it is discharged below for the toy cipher on tampered streams.
 -/
 namespace Octo.Ss
 open Octo.Fr
@@ -25,9 +36,45 @@ def honestBlocks (C : Crypto) (alg : Alg) (key : Bytes) : Nat → List Bytes →
     (C.sealB alg key (nonceAt c) [] (be16 p.length), be16 p.length) ::
     (C.sealB alg key (nonceAt (c + 1)) [] p, p) :: honestBlocks C alg key (c + 2) ps
 
-/-- integrity of ciphertexts: under nonce `c0 + i` nothing opens except the i-th honest block -/
-def NoForgery (C : Crypto) (alg : Alg) (key : Bytes) (c0 : Nat) (blocks : List (Bytes × Bytes)) : Prop :=
-  ∀ i x pt, C.openB alg key (nonceAt (c0 + i)) [] x = some pt → blocks[i]? = some (x, pt)
+/-- integrity of ciphertexts, for the strings in `A` (what the attacker can present): under nonce
+`c0 + i` no string of `A` opens except the i-th honest block.  Only the nonces the receiver can
+reach are constrained (`i ≤ blocks.length`: one per honest block and the one after the last). -/
+def NoForgeryOn (A : Bytes → Prop) (C : Crypto) (alg : Alg) (key : Bytes) (c0 : Nat) (blocks : List (Bytes × Bytes)) : Prop :=
+  ∀ i x pt, i ≤ blocks.length → A x → C.openB alg key (nonceAt (c0 + i)) [] x = some pt → blocks[i]? = some (x, pt)
+
+/-- integrity of ciphertexts relative to the received byte string `s`: no contiguous block of `s`
+opens under nonce `c0 + i` except the i-th honest block -/
+def NoForgery (C : Crypto) (alg : Alg) (key : Bytes) (c0 : Nat) (blocks : List (Bytes × Bytes)) (s : Bytes) : Prop :=
+  NoForgeryOn (· <:+: s) C alg key c0 blocks
+
+/-- why the hypothesis is relative to the received bytes: asked of *all* byte strings it contradicts
+`Lawful` — the seals of two different plaintexts under the first nonce both open -/
+theorem noForgery_global_inconsistent (C : Crypto) (hC : C.Lawful) (alg : Alg) (key : Bytes) (c0 : Nat)
+    (blocks : List (Bytes × Bytes)) : ¬ NoForgeryOn (fun _ => True) C alg key c0 blocks := by
+  intro h
+  have h1 := h 0 _ _ (Nat.zero_le _) trivial (hC.open_seal alg key (nonceAt (c0 + 0)) [] [])
+  have h2 := h 0 _ _ (Nat.zero_le _) trivial (hC.open_seal alg key (nonceAt (c0 + 0)) [] [0])
+  rw [h1] at h2
+  simp at h2
+
+/-- the hypothesis as a computation, for concrete data -/
+def noForgeryCheck (C : Crypto) (alg : Alg) (key : Bytes) (c0 : Nat) (blocks : List (Bytes × Bytes)) (s : Bytes) : Bool :=
+  (List.range (blocks.length + 1)).all fun i => (slices s).all fun x =>
+    match C.openB alg key (nonceAt (c0 + i)) [] x with
+    | none => true
+    | some pt => blocks[i]? == some (x, pt)
+
+theorem noForgery_of_check (C : Crypto) (alg : Alg) (key : Bytes) (c0 : Nat) (blocks : List (Bytes × Bytes)) (s : Bytes)
+    (h : noForgeryCheck C alg key c0 blocks s = true) : NoForgery C alg key c0 blocks s := by
+  intro i x pt hi hx ho
+  simp only [noForgeryCheck, List.all_eq_true, List.mem_range] at h
+  have := h i (by omega) x (mem_slices_of_infix hx)
+  rw [ho] at this
+  simpa using this
+
+theorem NoForgery.mono {C : Crypto} {alg : Alg} {key : Bytes} {c0 : Nat} {blocks : List (Bytes × Bytes)} {s t : Bytes}
+    (h : NoForgery C alg key c0 blocks s) (ht : t <:+: s) : NoForgery C alg key c0 blocks t :=
+  fun i x pt hi hx ho => h i x pt hi (hx.trans ht) ho
 
 def AuthAt (a : Auth) (c : Nat) : Prop := a.nonce = Nat.repeat Nonce.incStep c Nonce.incInit
 
@@ -40,9 +87,11 @@ theorem sealB_at (C : Crypto) (a : Auth) (c : Nat) (h : AuthAt a c) (x : Bytes) 
   simp only [Auth.sealB, nonceAt, Nat.repeat]; rw [h]
 
 theorem noForgery_shift (C : Crypto) (alg : Alg) (key : Bytes) (c : Nat) (b1 b2 : Bytes × Bytes) (rest : List (Bytes × Bytes))
-    (h : NoForgery C alg key c (b1 :: b2 :: rest)) : NoForgery C alg key (c + 2) rest := by
-  intro i x pt ho
-  have := h (i + 2) x pt (by rw [show c + (i + 2) = c + 2 + i by omega]; exact ho)
+    (s t : Bytes) (ht : t <:+: s)
+    (h : NoForgery C alg key c (b1 :: b2 :: rest) s) : NoForgery C alg key (c + 2) rest t := by
+  intro i x pt hi hx ho
+  have := h (i + 2) x pt (by simp only [List.length_cons]; omega) (hx.trans ht)
+    (by rw [show c + (i + 2) = c + 2 + i by omega]; exact ho)
   simpa using this
 
 /-- what the honest encoder emits for the first `k` chunks -/
@@ -67,25 +116,25 @@ payloads of the first `k` honest chunks for some `k` — a prefix of what the se
 bytes it consumed for them are exactly the sender's bytes for those `k` chunks, which `s` starts
 with: everything released lies before the first tampered byte. -/
 theorem c05_chunks_prefix (C : Crypto) (hC : C.Lawful) (ps : List Bytes) (hps : ∀ p ∈ ps, p.length < 65536) :
-    ∀ (a : Auth) (c : Nat), AuthAt a c → NoForgery C a.alg a.key c (honestBlocks C a.alg a.key c ps) →
-    ∀ s : Bytes, ∃ k, k ≤ ps.length ∧
+    ∀ (a : Auth) (c : Nat) (s : Bytes), AuthAt a c → NoForgery C a.alg a.key c (honestBlocks C a.alg a.key c ps) s →
+    ∃ k, k ≤ ps.length ∧
       (run (chunkUnit C) ⟨a, .length⟩ s).out = (ps.take k).flatten ∧
       (encChunks C a (ps.take k)).1 <+: s := by
   have G := chunkUnit_good C hC
   induction ps with
   | nil =>
-    intro a c ha hnf s
+    intro a c s ha hnf
     refine ⟨0, Nat.le_refl _, ?_, by simp [encChunks]⟩
     by_cases hl : s.length < 18
     · rw [run_need _ _ _ (by simp [chunkUnit, hl])]; rfl
     · cases ho : C.openB a.alg a.key (nonceAt c) [] (s.take 18) with
-      | some l => have := hnf 0 _ _ ho; simp [honestBlocks] at this
+      | some l => have := hnf 0 _ _ (Nat.zero_le _) (List.take_prefix 18 s).isInfix ho; simp [honestBlocks] at this
       | none =>
         rw [run_fail _ _ _ ⟨{ a with nonce := nonceAt c }, .length⟩ 18
           (by simp only [chunkUnit, hl, if_false]; rw [openB_at C a c ha, ho])]
         rfl
   | cons p ps ih =>
-    intro a c ha hnf s
+    intro a c s ha hnf
     have hp := hps p List.mem_cons_self
     by_cases hl : s.length < 18
     · exact ⟨0, Nat.zero_le _, by rw [run_need _ _ _ (by simp [chunkUnit, hl])]; rfl, by simp [encChunks]⟩
@@ -97,7 +146,7 @@ theorem c05_chunks_prefix (C : Crypto) (hC : C.Lawful) (ps : List Bytes) (hps : 
         rfl
       | some l =>
         -- the length block is the honest one
-        have h0 := hnf 0 _ _ ho
+        have h0 := hnf 0 _ _ (Nat.zero_le _) (List.take_prefix 18 s).isInfix ho
         simp only [honestBlocks, List.getElem?_cons_zero, Option.some.injEq, Prod.mk.injEq] at h0
         obtain ⟨hx, hlv⟩ := h0
         have ha1 : AuthAt { a with nonce := nonceAt c } (c + 1) := rfl
@@ -117,7 +166,7 @@ theorem c05_chunks_prefix (C : Crypto) (hC : C.Lawful) (ps : List Bytes) (hps : 
               (by simp only [chunkUnit, hl2, if_false]; rw [openB_at C _ (c + 1) ha1]; simp only [ho2])]
             rfl
           | some q =>
-            have h1 := hnf 1 _ _ ho2
+            have h1 := hnf 1 _ _ (by simp [honestBlocks]) (infix_take_drop s 18 _) ho2
             simp only [honestBlocks, List.getElem?_cons_succ, List.getElem?_cons_zero, Option.some.injEq, Prod.mk.injEq] at h1
             obtain ⟨hx2, hq⟩ := h1
             have ha2 : AuthAt { a with nonce := nonceAt (c + 1) } (c + 2) := rfl
@@ -125,8 +174,10 @@ theorem c05_chunks_prefix (C : Crypto) (hC : C.Lawful) (ps : List Bytes) (hps : 
                 .take ⟨{ a with nonce := nonceAt (c + 1) }, .length⟩ (p.length + 16) p := by
               simp only [chunkUnit, hl2, if_false]; rw [openB_at C _ (c + 1) ha1]
               simp only [ho2, ← hq]
-            obtain ⟨k, hk, hout, hpre⟩ := ih (fun q hq => hps q (List.mem_cons_of_mem _ hq)) { a with nonce := nonceAt (c + 1) } (c + 2) ha2
-              (noForgery_shift C a.alg a.key c _ _ _ hnf) ((s.drop 18).drop (p.length + 16))
+            obtain ⟨k, hk, hout, hpre⟩ := ih (fun q hq => hps q (List.mem_cons_of_mem _ hq)) { a with nonce := nonceAt (c + 1) } (c + 2)
+              ((s.drop 18).drop (p.length + 16)) ha2
+              (noForgery_shift C a.alg a.key c _ _ _ s _
+                ((List.drop_suffix _ _).isInfix.trans (List.drop_suffix 18 s).isInfix) hnf)
             refine ⟨k + 1, by simp only [List.length_cons]; omega, ?_, ?_⟩
             · rw [run_take _ G _ _ _ _ _ u2]
               simp only [List.take_succ_cons, List.flatten_cons]
@@ -145,11 +196,63 @@ theorem c05_chunks_prefix (C : Crypto) (hC : C.Lawful) (ps : List Bytes) (hps : 
               conv => rhs; rw [hs1]
               rw [← ht]; simp [List.append_assoc]
 
-/-- non-vacuity of the hypotheses: for the (lawful) toy cipher and the empty chunk list,
-`NoForgery` asks that nothing opens — false for the toy cipher, which is exactly why it offers no
-security; the hypothesis is meaningful, not vacuous: it holds for an ideal AEAD and fails for a
-forgeable one.  The statement itself is exercised on the real ciphers by the mutation runs. -/
-example : AuthAt (Auth.new .aes128gcm (zeros 16)) 0 := rfl
+/-! ### non-vacuity: the hypotheses are jointly satisfiable with `Lawful`, on tampered streams
+
+`Crypto.toy` (one-byte checksum tag) on a one-chunk stream, and `Crypto.toyS` (128-bit tag, see
+`Octo/Proofs/ToyStrong.lean`) on a two-chunk stream; the relative `NoForgery` is evaluated
+(`noForgeryCheck`, every contiguous block of the received bytes against every reachable nonce). -/
+namespace C05Ex
+
+def exAuth : Auth := Auth.new .aes128gcm [1, 2, 3, 4]
+
+example : AuthAt exAuth 0 := rfl
+
+/-- flip the lowest bit of byte `i` -/
+def flipBit (i : Nat) (s : Bytes) : Bytes := s.set i (s.getD i 0 ^^^ 1)
+
+/-- toy cipher, the honest one-chunk stream (36 bytes) -/
+def exWire1 : Bytes := (encChunks Crypto.toy exAuth [[10, 11]]).1
+
+-- the honest stream itself contains no forgery, and is released whole (k = 1)
+theorem exWire1_noForgery :
+    NoForgery Crypto.toy exAuth.alg exAuth.key 0 (honestBlocks Crypto.toy exAuth.alg exAuth.key 0 [[10, 11]]) exWire1 :=
+  noForgery_of_check _ _ _ _ _ _ (by decide +kernel)
+example : (run (chunkUnit Crypto.toy) ⟨exAuth, .length⟩ exWire1).out = [10, 11] := by decide +kernel
+
+-- one bit of the payload block flipped: the hypothesis holds, the theorem applies, nothing is released (k = 0)
+theorem exWire1_flipped_noForgery :
+    NoForgery Crypto.toy exAuth.alg exAuth.key 0 (honestBlocks Crypto.toy exAuth.alg exAuth.key 0 [[10, 11]]) (flipBit 20 exWire1) :=
+  noForgery_of_check _ _ _ _ _ _ (by decide +kernel)
+example : ∃ k, k ≤ 1 ∧ (run (chunkUnit Crypto.toy) ⟨exAuth, .length⟩ (flipBit 20 exWire1)).out = ([[10, 11]].take k).flatten ∧
+    (encChunks Crypto.toy exAuth ([[10, 11]].take k)).1 <+: flipBit 20 exWire1 :=
+  c05_chunks_prefix Crypto.toy Crypto.toy_lawful [[10, 11]] (by decide) exAuth 0 _ rfl exWire1_flipped_noForgery
+example : (run (chunkUnit Crypto.toy) ⟨exAuth, .length⟩ (flipBit 20 exWire1)).out = [] ∧
+    (run (chunkUnit Crypto.toy) ⟨exAuth, .length⟩ (flipBit 20 exWire1)).failed = true := by decide +kernel
+
+-- the toy cipher *is* forgeable, and the relative hypothesis notices: flipping bit 0 of byte 6 produces
+-- a block that opens although the sender never sealed it
+example : noForgeryCheck Crypto.toy exAuth.alg exAuth.key 0 (honestBlocks Crypto.toy exAuth.alg exAuth.key 0 [[10, 11]])
+    (flipBit 6 exWire1) = false := by decide +kernel
+
+/-- `toyS`, two chunks; the attacker delivers the first chunk intact, then the length block of the
+second chunk with one bit flipped, and cuts the rest off (54 of 71 bytes) -/
+def exChunks : List Bytes := [[10, 11], [20]]
+def exWire2 : Bytes := (encChunks Crypto.toyS exAuth exChunks).1
+def exTampered2 : Bytes := (flipBit 37 exWire2).take 54
+
+theorem exTampered2_noForgery :
+    NoForgery Crypto.toyS exAuth.alg exAuth.key 0 (honestBlocks Crypto.toyS exAuth.alg exAuth.key 0 exChunks) exTampered2 :=
+  noForgery_of_check _ _ _ _ _ _ (by decide +kernel)
+
+-- the theorem instantiated, every hypothesis discharged
+example : ∃ k, k ≤ 2 ∧ (run (chunkUnit Crypto.toyS) ⟨exAuth, .length⟩ exTampered2).out = (exChunks.take k).flatten ∧
+    (encChunks Crypto.toyS exAuth (exChunks.take k)).1 <+: exTampered2 :=
+  c05_chunks_prefix Crypto.toyS Crypto.toyS_lawful exChunks (by decide) exAuth 0 _ rfl exTampered2_noForgery
+-- and what it says here: exactly the first chunk is released, then the stream fails
+example : (run (chunkUnit Crypto.toyS) ⟨exAuth, .length⟩ exTampered2).out = [10, 11] ∧
+    (run (chunkUnit Crypto.toyS) ⟨exAuth, .length⟩ exTampered2).failed = true := by decide +kernel
+
+end C05Ex
 
 end Octo.Ss
 
@@ -159,23 +262,24 @@ open Octo.Fr
 /-- **C05, any segmentation**: the same prefix statement when the attacker's bytes arrive in any
 pieces (what `FramedRead` / `WebSocketFramed` do across reads) -/
 theorem c05_chunks_prefix_segmented (C : Crypto) (hC : C.Lawful) (ps : List Bytes) (hps : ∀ p ∈ ps, p.length < 65536)
-    (a : Auth) (c : Nat) (ha : AuthAt a c) (hnf : NoForgery C a.alg a.key c (honestBlocks C a.alg a.key c ps))
-    (pieces : List Bytes) :
+    (a : Auth) (c : Nat) (ha : AuthAt a c) (pieces : List Bytes)
+    (hnf : NoForgery C a.alg a.key c (honestBlocks C a.alg a.key c ps) pieces.flatten) :
     ∃ k, k ≤ ps.length ∧
       (pieces.foldl (feed (chunkUnit C)) (run (chunkUnit C) ⟨a, .length⟩ [])).out = (ps.take k).flatten := by
   have := feed_pieces (chunkUnit C) (chunkUnit_good C hC) pieces ⟨a, .length⟩ []
   rw [this, List.nil_append]
-  obtain ⟨k, hk, ho, _⟩ := c05_chunks_prefix C hC ps hps a c ha hnf pieces.flatten
+  obtain ⟨k, hk, ho, _⟩ := c05_chunks_prefix C hC ps hps a c pieces.flatten ha hnf
   exact ⟨k, hk, ho⟩
 
 /-- **C05, reflection (Shadowsocks 2022)**: a client that is handed a *request* — its own,
 reflected, or anybody's — releases nothing.  The response header it tries to open is 27 + N bytes
 long (type, time, request salt, length, tag) while every block ever sealed with nonce 0 under a
-request's session key is a 27-byte request header; under integrity of ciphertexts such a block
-does not open. -/
+request's session key is a 27-byte request header; under integrity of ciphertexts (`hnf`: no
+contiguous block of the received bytes `b` opens under nonce 0 of the session key of `b`'s salt
+unless it is such a 27-byte header) such a block does not open. -/
 theorem c05_ss2022_client_rejects_requests (C : Crypto) (ctx : Ctx) (env : DecEnv) (d : Dec)
     (hm : d.sess.mode = .client) (hd : d.chunk = none) (b : Bytes)
-    (hnf : ∀ x pt, C.openB ctx.kind.alg (newAuth C ctx.kind ctx.key (b.take ctx.kind.n)).key (nonceAt 0) [] x = some pt →
+    (hnf : ∀ x pt, x <:+: b → C.openB ctx.kind.alg (newAuth C ctx.kind ctx.key (b.take ctx.kind.n)).key (nonceAt 0) [] x = some pt →
       x.length = 27) :
     ∀ d' n o, init2022 C ctx env d b ≠ .take d' n o := by
   intro d' n o h
@@ -202,8 +306,32 @@ theorem c05_ss2022_client_rejects_requests (C : Crypto) (ctx : Ctx) (env : DecEn
   · rename_i hh a' heq
     have hx := congrArg Prod.fst heq
     simp only at hx
-    have := hnf _ _ hx
+    have := hnf _ _ (infix_take_drop b _ _) hx
     simp only [List.length_take, List.length_drop] at this
     omega
+
+/-! non-vacuity: a client's own request (`toyS`, 62 bytes: salt ‖ fixed header ‖ variable header)
+satisfies `hnf` — the only block of it that opens under nonce 0 is its 27-byte fixed header — and,
+reflected to a client, it is refused -/
+namespace C05ExR
+
+def exCtx : Ctx := { kind := .b3aes128, key := [9, 8, 7, 6, 5, 4, 3, 2, 1, 0, 1, 2, 3, 4, 5, 6] }
+def exClient : Sess := { mode := .client, salt := [1, 2, 3, 4, 5, 6, 7, 8, 9, 10, 11, 12, 13, 14, 15, 16] }
+def exRequest : Bytes := (encode Crypto.toyS exCtx exClient {} [7] { now := 1000 }).1
+
+example (env : DecEnv) (d : Dec) (hm : d.sess.mode = .client) (hd : d.chunk = none) :
+    ∀ d' n o, init2022 Crypto.toyS exCtx env d exRequest ≠ .take d' n o := by
+  apply c05_ss2022_client_rejects_requests Crypto.toyS exCtx env d hm hd exRequest
+  have hc : ((slices exRequest).all fun x =>
+      match Crypto.toyS.openB exCtx.kind.alg (newAuth Crypto.toyS exCtx.kind exCtx.key (exRequest.take exCtx.kind.n)).key
+          (nonceAt 0) [] x with
+      | none => true
+      | some _ => x.length == 27) = true := by decide +kernel
+  intro x pt hx ho
+  have := List.all_eq_true.mp hc x (mem_slices_of_infix hx)
+  rw [ho] at this
+  simpa using this
+
+end C05ExR
 
 end Octo.Ss
